@@ -775,6 +775,19 @@ def race_cases(thorough, rng):
                 for batches, tags in explore(1, has_delay, addrs, [], rng, cap, 40 if thorough else (8 if n == 3 else 16),
                                              crash=(n <= 2)):
                     yield _mk_case(1, has_delay, addrs, [], batches, tags + ["all-suspend"])
+    # (1b) unequal per-family counts (1 vs 3 addresses) and several local addresses per family with partial bind
+    #      failures (an earlier local address fails, a later one of the same family binds; all fail; no match)
+    for fams in ((A4, A6, A6, A6), (A6, A4, A4, A4)):
+        addrs = [[f, 1, 0] for f in fams]
+        for batches, tags in explore(1, 1, addrs, [], rng, 2, 3, crash=False):
+            yield _mk_case(1, 1, addrs, [], batches, tags + ["all-suspend", "unequal-families"])
+    local_confs = [[[A4, [0]], [A4, []]], [[A4, [0]], [A4, [0]]], [[A6, []], [A4, [0]], [A4, []]], [[A4, []]],
+                   [[A6, [1]], [A6, [1]], [A6, []], [A4, [0]]]]
+    for ls in local_confs:
+        for kind, has_delay in ((1, 1), (0, 0)):
+            addrs = [[A4, 1, 0], [A6, 1, 0]]
+            for batches, tags in explore(kind, has_delay, addrs, [ls], rng, 3, 4, crash=False):
+                yield _mk_case(kind, has_delay, addrs, [ls], batches, tags + ["all-suspend", "partial-bind"])
     # (2) scripted attempts (socket() fails, connect returns/raises at once), local addresses, up to 4 addresses
     nconf = 400 if thorough else 90
     for _ in range(nconf):
